@@ -52,7 +52,10 @@ def build_case(cid, rng):
         nbox = rng.randint(1, 3)
         boxes = " ".join("let b = ::std::boxed::Box::new(x + %d);" % k for k in range(nbox))
         # the first link may carry a type parameter of its own (lifted to the generated trait: `trait L1<T>`)
-        gen_here = i == 1 and gen1 and kind in ("fn", "mod")
+        # ... or, for an entraited trait, a type parameter of the method itself (it stays on the method)
+        # (not for traits with a delegation target: an impl block lifts the type parameters of its fns to the trait, so a generic
+        # method of the delegated trait cannot be implemented by a block - outside the class C07 states)
+        gen_here = i == 1 and gen1 and kind in ("fn", "mod", "leaf_trait")
         TB = "T: ::core::convert::Into<u64> + ::core::marker::Send + 'static"
         Gi = (("<'a, %s>" % TB) if with_lt else ("<%s>" % TB)) if gen_here else G
         SPi = (", t: T" + SP) if gen_here else SP
@@ -101,16 +104,16 @@ def build_case(cid, rng):
                 i, i, G, SP, fut, boxes_t, yld, call_next_t))
         elif kind == "leaf_trait":
             # hand-written trait, static delegation to T (= the app itself implements it)
-            L.append("#[::entrait::entrait(delegate_by = Self%s)] /*@inv%d*/\npub trait L%d { %sfn l%d%s(&self, x: u64%s) -> u64; }" % (OPT, i, i, asy, i, G, SP))
+            L.append("#[::entrait::entrait(delegate_by = Self%s)] /*@inv%d*/\npub trait L%d { %sfn l%d%s(&self, x: u64%s) -> u64; }" % (OPT, i, i, asy, i, Gi, SPi))
             # the app's implementation needs the rest of the chain through Impl<App>: provide it on App via a free fn on a fresh Impl
             L.append("impl L%d for App { %sfn l%d%s(&self, x: u64%s) -> u64 { let deps = ::entrait::Impl::new(App); let deps = &deps; %s%s %s } }" % (
-                i, asy, i, G, SP, boxes_t, yld, call_next_t))
+                i, asy, i, Gi, SPi, boxes_t, yld, call_next_t))
         else:
-            L.append("#[::entrait::entrait(L%dImpl, delegate_by = DelegateL%d%s)] /*@inv%d*/\npub trait L%d { %sfn l%d%s(&self, x: u64%s) -> u64; }" % (i, i, OPT, i, i, asy, i, G, SP))
-            L.append("pub struct T%d;\n#[::entrait::entrait] /*@blk%d*/\nimpl L%dImpl for T%d { pub %sfn l%d%s(deps: &%s, x: u64%s) -> u64 %s }" % (i, i, i, i, asy, i, G, bound, SP, body_t))
+            L.append("#[::entrait::entrait(L%dImpl, delegate_by = DelegateL%d%s)] /*@inv%d*/\npub trait L%d { %sfn l%d%s(&self, x: u64%s) -> u64; }" % (i, i, OPT, i, i, asy, i, Gi, SPi))
+            L.append("pub struct T%d;\n#[::entrait::entrait] /*@blk%d*/\nimpl L%dImpl for T%d { pub %sfn l%d%s(deps: &%s, x: u64%s) -> u64 %s }" % (i, i, i, i, asy, i, Gi, bound, SPi, body_t))
             L.append("impl DelegateL%d<Self> for App { type Target = T%d; }" % (i, i))
         if kind in ("leaf_trait", "concrete", "impl_future"):
-            GT.append("%sfn g%d<%sD>(deps: &D, x: u64%s) -> u64 { let deps2 = ::entrait::Impl::new(App); let deps = &deps2; %s%s %s }" % (asy, i, "'a, " if with_lt else "", SP, boxes_g, yld, call_next_g))
+            GT.append("%sfn g%d<%s%sD>(deps: &D, x: u64%s) -> u64 { let deps2 = ::entrait::Impl::new(App); let deps = &deps2; %s%s %s }" % (asy, i, "'a, " if with_lt else "", (TB + ", ") if gen_here else "", SPi, boxes_g, yld, call_next_g))
         else:
             GT.append("%sfn g%d<%s%sD>(deps: &D, x: u64%s) -> u64 %s" % (asy, i, "'a, " if with_lt else "", (TB + ", ") if gen_here else "", SPi, body_g))
     wrap = (lambda c: "::vrt::block_on(%s)" % c) if is_async else (lambda c: c)
